@@ -216,8 +216,11 @@ def line(dur, begin=0., end=1., finish=False):
     Second and hertz constants from samples/second rate.
 
   """
+  num_samples = int(dur + .5)
+  if num_samples == 0: # Nothing to yield (and "dur" might be zero)
+    return
   m = (end - begin) / (dur - (1. if finish else 0.))
-  for sample in xrange(int(dur + .5)):
+  for sample in xrange(num_samples):
     yield begin + sample * m
 
 
@@ -281,11 +284,11 @@ def attack(a, d, s):
   else:
     it_s = None
 
-  # Attack and decay lines
-  m_a = 1. / a
-  m_d = (s - 1.) / d
+  # Attack and decay lines (a slope is needed only if its line has samples)
   len_a = int(a + .5)
   len_d = int(d + .5)
+  m_a = 1. / a if len_a else 0.
+  m_d = (s - 1.) / d if len_d else 0.
   for sample in xrange(len_a):
     yield sample * m_a
   for sample in xrange(len_d):
@@ -374,12 +377,12 @@ def adsr(dur, a, d, s, r):
   0.0, having peak value of 1.0.
 
   """
-  m_a = 1. / a
-  m_d = (s - 1.) / d
-  m_r = - s * 1. / r
   len_a = int(a + .5)
   len_d = int(d + .5)
   len_r = int(r + .5)
+  m_a = 1. / a if len_a else 0. # A slope is needed only if its line has
+  m_d = (s - 1.) / d if len_d else 0. # at least one sample
+  m_r = - s * 1. / r if len_r else 0.
   len_s = int(dur + .5) - len_a - len_d - len_r
   for sample in xrange(len_a):
     yield sample * m_a
